@@ -234,7 +234,7 @@ func doSelfTest(verif string, n, seeds int, genSeed int64, keep bool) int {
 		return 1
 	}
 	c := exec.Command(filepath.Join(inst, "simrun"), "-seeds", strconv.Itoa(seeds), "-digests")
-	c.Env = append(os.Environ(), "GOMAXPROCS=1")
+	c.Env = append(os.Environ(), "GOMAXPROCS=1", "GOMEMLIMIT=3GiB")
 	simOut, simErr := c.CombinedOutput()
 	// the same schedules again in a second process with real parallelism available: every run
 	// digest (decisions + steps) must be identical
@@ -362,7 +362,7 @@ func doReplay(repo, verif, path string, keep bool) int {
 	}
 	abs, _ := filepath.Abs(path)
 	cmd := exec.Command(res.Bins[pc.Harness], "-mode", "replay", "-file", abs, "-v")
-	cmd.Env = append(os.Environ(), "GOMAXPROCS=1")
+	cmd.Env = append(os.Environ(), "GOMAXPROCS=1", "GOMEMLIMIT=3GiB")
 	cmd.Stdout, cmd.Stderr = os.Stdout, os.Stderr
 	err = cmd.Run()
 	code := 0
@@ -693,7 +693,7 @@ func doCheck(repo, verif, prop string, pc propConf, tier string, seed uint64, wo
 	os.MkdirAll(filepath.Join(verif, "replays"), 0o755)
 	freshReplay := func(file string) (int, string) {
 		rc := exec.Command(bin, "-mode", "replay", "-file", file)
-		rc.Env = append(os.Environ(), "GOMAXPROCS=1")
+		rc.Env = append(os.Environ(), "GOMAXPROCS=1", "GOMEMLIMIT=3GiB")
 		rout, rerr := rc.CombinedOutput()
 		code := 0
 		if ee, ok := rerr.(*exec.ExitError); ok {
@@ -736,7 +736,7 @@ func doCheck(repo, verif, prop string, pc propConf, tier string, seed uint64, wo
 			name := fmt.Sprintf("%s-%s-%s-seed%d-run%d.json", prop, sanitize(c.Oracle), sanitize(c.Class+"-"+c.Site), seed, c.RunIndex)
 			final := filepath.Join(verif, "replays", name)
 			mc := exec.Command(bin, "-mode", "minimize", "-file", raw, "-out", final)
-			mc.Env = append(os.Environ(), "GOMAXPROCS=1")
+			mc.Env = append(os.Environ(), "GOMAXPROCS=1", "GOMEMLIMIT=3GiB")
 			mout, merr := mc.CombinedOutput()
 			minimised := merr == nil
 			if minimised {
